@@ -24,8 +24,8 @@ from tools import vlib
 from tools.vlib import Outcome, sx
 
 MANIFEST = {
-    "level_text": "Coq theorems (Properties/C19.v, no axioms) about a Gallina transcription of save_to_tauri_config / from_tauri_config / validate (config.rs) and of the configuration phase of run_generate and run_init (bin): for every JSON document, every settings value (all twelve fields), every path into the document outside plugins.typegen, every set of files and every flag set: an accepted save preserves every other path (C19_preserve) and reads back as the settings written (C19_roundtrip); the save is refused with an error exactly when the root or plugins is not an object (C19_save_refused); init refuses invalid settings and unwritable documents without touching any file, for tauri.conf.json and for standalone targets (C19_init_reject_first, C19_init_unsaveable, C19_init_file_reject_first, C19_init_file_no_overwrite, C19_init_file_document) and otherwise leaves save_doc of the old document (C19_init_document); generate uses flag over file over default for all observable settings and refuses invalid effective settings without a write (C19_precedence, C19_generate_reject_first) for every set of files and flag set. The standalone configuration file (save_to_file / from_file as serde derives them; generate -c) and the build-script loader are modelled next to it: exact round trip for all twelve fields (C19_roundtrip_file), flag over standalone file over default (C19_precedence_file, C19_generate_c), file over default in the build script (C19_precedence_build), the build-script statement on the complement of the class C19-9, with a computed counterexample. The model is tied to /repo on every run: library calls on random documents (compared as JSON values) and the real binary on all 2^5 flag subsets x configuration-file variants and on random init runs.",
-    "level_note": "JSON numbers are opaque tokens of serde_json's number model (u64/i64/f64): preservation of numbers is equality of those values, not of their spelling (1e3 comes back as 1000.0). Parsing and printing of JSON text (serde_json) is outside the model: the model starts from the value serde_json reads, the oracle from the reference reading of the text (a misread decimal is therefore reported). Analysis and generation are reduced to which project, which output directory, which mode. Path existence is an input of the model (the set of paths that name something, as the standard library's exists() sees the sandbox): how stat() fails for a path that names nothing is below the model and exercised by the generators only. Not modelled: an init target whose directory does not exist; output paths that cannot be created; a standalone file whose root is a JSON array (serde reads it positionally); duplicate keys in a standalone file; the project detection of the build script (the driver runs it from the project root) and its verbosity (not observable). Force is observed through an immediate identical second run (relies on the cache being stable for a one-command project). Of the boolean oracles only roundtrip_b is proved to accept the model's own output.",
+    "level_text": "Coq theorems (Properties/C19.v, no axioms) about a Gallina transcription of save_to_tauri_config / from_tauri_config / validate (config.rs) and of the configuration phase of run_generate and run_init (bin): for every JSON document, every settings value (all twelve fields), every path into the document outside plugins.typegen, every set of files and every flag set: an accepted save preserves every other path (C19_preserve) and reads back as the settings written (C19_roundtrip); the save is refused with an error exactly when the root or plugins is not an object (C19_save_refused); init refuses invalid settings and unwritable documents without touching any file, for tauri.conf.json and for standalone targets (C19_init_reject_first, C19_init_unsaveable, C19_init_file_reject_first, C19_init_file_no_overwrite, C19_init_file_document) and otherwise leaves save_doc of the old document (C19_init_document); generate uses flag over file over default for all observable settings and refuses invalid effective settings without a write (C19_precedence, C19_generate_reject_first) for every set of files and flag set. The standalone configuration file (save_to_file / from_file as serde derives them; generate -c) and the build-script loader are modelled next to it: exact round trip for all twelve fields (C19_roundtrip_file), flag over standalone file over default (C19_precedence_file, C19_generate_c), file over default in the build script (C19_precedence_build), the build-script statement on the complement of the class C19-9, with a computed counterexample. Round 7: every boolean run-time oracle is tied to a Prop-level statement by a reflection theorem and is proved to accept the model for every input: json_eqb / config_eqb / eff_eqb decide equality (C19_json_eqb_reflect, C19_config_eqb_reflect, C19_eff_eqb_reflect); preserved_b fuel = every path of length <= fuel outside the section has the same value, and = every path at all when fuel exceeds the depth of both documents (C19_oracle_preserved_reflect, C19_oracle_preserved_reflect_all), accepted for save_doc of every document and settings value at any fuel (C19_oracle_preserved_model); roundtrip_b / flat_roundtrip_b / roundtrip_lres_b / lib_ok_b (C19_oracle_roundtrip_reflect, _file_reflect, _lres_reflect, C19_oracle_lib_reflect, C19_oracle_lib_model); generate_ok_b and generate_c_ok_b (C19_oracle_precedence_reflect, C19_oracle_precedence_model, C19_oracle_precedence_file_reflect, C19_oracle_precedence_file_model: for every file system, flag set and -c path); the build-script oracle accepts the model wherever it does not demand a refusal (C19_oracle_build_model). Newly inside the model, each with a correspondence stream against the real code: a standalone file that states a field twice (refused by the derived reader: C19_file_duplicate_refused), a standalone file whose root is an array (read by position, at most twelve elements: C19_file_shape_refused, and C19_precedence_file / C19_generate_c now cover it), init -o <file> whose directory does not exist / is a regular file / which is a directory (C19_init_file_unwritable: error, nothing created), the project detection of the build script over the working directory and its parent, tauri.conf.js included (C19_precedence_build_at, C19_build_detect_precedence, C19_build_detect_none, C19_build_detect_here). The model is tied to /repo on every run: library calls on random documents (compared as JSON values) and the real binary on all 2^5 flag subsets x configuration-file variants and on random init runs.",
+    "level_note": "JSON numbers are opaque tokens of serde_json's number model (u64/i64/f64): preservation of numbers is equality of those values, not of their spelling (1e3 comes back as 1000.0). Parsing and printing of JSON text (serde_json) is outside the model: the model starts from the value serde_json reads, the oracle from the reference reading of the text (a misread decimal is therefore reported). Analysis and generation are reduced to which project, which output directory, which mode. Path existence is an input of the model (the set of paths that name something, as the standard library's exists() sees the sandbox): how stat() fails for a path that names nothing is below the model and exercised by the generators only. Not modelled: output paths that cannot be created; project detection of the build script above the parent of the working directory (the check assumes no tauri.conf.json / tauri.conf.js / src-tauri above its sandboxes) and the src_tauri_path / devPath reading of the scanner (not used for the configuration); the verbosity of the build script (not observable); EACCES shapes (the check runs as root). Members of a standalone file are given to the model in text order with repetitions (python object_pairs_hook), values inside them on the reference reading. Reading choice: a standalone file that states one of the twelve fields twice is malformed and must be refused like any other malformed -c file (what the code does); the build script falls back on it (inside C19-9). A refusal of init -o <file> because the file cannot be created is accepted by the oracle, not demanded (the text does not ask for directories to be created); the model refuses, so a change there shows as a correspondence disagreement only. Force is observed through an immediate identical second run (relies on the cache being stable for a one-command project). Oracles: preserved_b is run with fuel 40, so at run time it decides preservation for paths up to length 40 (the generated documents nest far less deep, so C19_oracle_preserved_reflect_all applies to them); init_ok_b, init_file_ok_b and build_ok_detect_b have no Prop-level counterpart of their own - they are compositions of the reflected pieces (preserved_b, roundtrip_b, flat_roundtrip_b, eff_eqb_build) and only build_ok_detect_b is proved to accept the model (where it demands no refusal).",
     "technique": "Rocq/Coq proof over hand-written model + correspondence check (extracted OCaml vs Rust harness and the real CLI binary in sandboxes)",
     "design_ref": "DESIGN.md section 5 C19, section 11 (preserve/save_writes/roundtrip/precedence spike)"
 }
@@ -43,17 +43,19 @@ RULE = ("lib: random JSON documents (depth <= 5; Unicode, escaped and surrogate-
         "file: 600 settings values through save_to_file/from_file, 600 random standalone documents (right and wrong types, unknown keys) through from_file; "
         "generate -c: all 2^5 flag subsets x 12 standalone-file variants (each setting absent / non-default / equal to its default, all), corpus incl. the seeded force case, random worlds (missing / malformed / invalid file, tauri.conf.json present as a decoy); "
         "build script: BuildSystem::generate_at_build_time() through a driver, 8 fixed + 150 random combinations of tauri.conf.json and typegen.json, force observed through a marker that a non-forced second run must leave alone. "
+        "round 7: shapes of a standalone file outside an object with each key once (37 texts: a field twice with equal / different / null values, an unknown key twice, a nested object with a repeated key, root arrays of 0..13 elements with right and wrong element types, scalars) through from_file, x 3 flag sets through generate -c, and as typegen.json of the build script; 10 % of the random standalone texts repeat a member, 8 % are arrays; init whose target cannot be created or found (66 + 12 cases: directory missing one or two levels, a regular file / symlink loop / dangling link in the way, the target is a directory; standalone and tauri.conf.json targets; valid and invalid settings; with and without --force; warm output directories); the build script started one level below the project root, next to a tauri.conf.js (JSON and JavaScript), without any marker (16 cases). "
         "A case is non-trivial when the document "
         "has at least one key besides plugins (lib, init) or at least one flag or file setting (generate); "
         "distinct = distinct cases by content hash")
 TRUSTED = [
     "serde_json 1.0.151 (default features: no preserve_order, no arbitrary_precision, no float_roundtrip) parsing/printing; python json as the reference reader of documents",
-    "Spec/C19Spec.v boolean oracles (lib_ok_b / preserved_b enumerates the paths of both documents; generate_ok_b; init_ok_b)",
+    "Spec/C19Spec.v: the Prop-level readings of the oracles (preserved_P, lib_ok_P, generate_ok_P, generate_c_ok_P) - the boolean oracles lib_ok_b, preserved_b, roundtrip_b, generate_ok_b, generate_c_ok_b are proved equivalent to them; init_ok_b, init_file_ok_b, build_ok_detect_b are trusted as compositions of those pieces",
     "observation of the real binary: exit status, byte snapshot of the sandbox, commands.ts header and wrapper name, marker lines in the output",
 ]
 ASSUMPTIONS = [
     "an immediate identical non-forced second run of a one-command project reports 'up to date' (used to observe force)",
     "python's json.loads and serde_json agree on which generated texts are JSON and on their values (texts are generated inside the common subset)",
+    "no tauri.conf.json, tauri.conf.js or src-tauri exists in any directory above the sandboxes (the build script's project detection walks upwards; the model stops at the parent of the working directory)",
 ]
 
 I64_MIN, U64_MAX = -(1 << 63), (1 << 64) - 1
@@ -1387,6 +1389,35 @@ def run_build_case(c):
         return ["ran", [proj, rel, lib, False, False, viz, forced]], raw
 
 
+def build_detect_cases():
+    """The build script started where the project root has to be detected: one level below it, next to a
+    tauri.conf.js, in a directory without any marker (small-scope list)."""
+    secA = sec_text({"projectPath": "./projA", "outputPath": "./outT", "validationLibrary": "zod"})
+    flatA = flat_text({"project_path": "./projA", "output_path": "./outF", "force": True})
+    flatB = flat_text({"project_path": "./projB", "output_path": "./outF"})
+    js_sec = '{"plugins":{"typegen":{"projectPath":"./projA","outputPath":"./outT","visualizeDeps":true}}}'
+    worlds = [
+        ("no marker anywhere", "absent", {}),
+        ("typegen.json alone is no marker", "absent", {"typegen.json": flatA}),
+        ("parent typegen.json alone is no marker", "absent", {"../typegen.json": flatB}),
+        ("parent tauri.conf.json with a section", "absent", {"../tauri.conf.json": secA}),
+        ("parent tauri.conf.json without a section, parent typegen.json", "absent", {"../tauri.conf.json": '{"productName":"x"}', "../typegen.json": flatA}),
+        ("parent is the root: typegen.json of the working directory is not read", "absent", {"../tauri.conf.json": secA, "typegen.json": flatB}),
+        ("parent is the root: its typegen.json loses against its section", "absent", {"../tauri.conf.json": secA, "../typegen.json": flatB}),
+        ("working directory is the root: parent files are not read", "proj", {"../tauri.conf.json": secA, "../typegen.json": flatB}),
+        ("working directory is the root by typegen-less tauri.conf.json", "absent", {"tauri.conf.json": '{"productName":"x"}', "../tauri.conf.json": secA, "typegen.json": flatA}),
+        ("tauri.conf.js that happens to be JSON is read", "absent", {"tauri.conf.js": js_sec}),
+        ("tauri.conf.js that is JavaScript: typegen.json", "absent", {"tauri.conf.js": "module.exports = {};", "typegen.json": flatA}),
+        ("tauri.conf.json wins over tauri.conf.js", "proj", {"tauri.conf.json": secA, "tauri.conf.js": js_sec.replace("outT", "outF")}),
+        ("parent tauri.conf.js", "absent", {"../tauri.conf.js": js_sec}),
+        ("C19-9 at the parent: unsupported library", "absent", {"../tauri.conf.json": sec_text({"validationLibrary": "yup", "projectPath": "./projA", "outputPath": "./outT"}),
+                                                                "../typegen.json": flatA}),
+        ("parent section names a project without commands", "absent", {"../tauri.conf.json": sec_text({"projectPath": "./empty"})}),
+        ("parent src-tauri is a marker", "absent", {"../src-tauri/readme.txt": "x", "../typegen.json": flatA}),
+    ]
+    return [{"world": {"src_tauri": st, "files": files}, "name": name} for name, st, files in worlds]
+
+
 def eval_build(cases):
     res = vlib.pmap(run_build_case, cases)
     reading = serde_read([t for c in cases for t in c["world"]["files"].values()])
@@ -1732,11 +1763,13 @@ def run(rep):
     sgc, sbl = file_shape_cases()
     rep.add("file-shapes-generate-c", eval_generatec(sgc), sample_count=1)
     rep.add("file-shapes-build", eval_build(sbl), sample_count=1)
+    bdc = build_detect_cases()
+    rep.add("build-detect", eval_build(bdc), sample_count=1)
     mf, mi = init_missing_dir_cases()
     rep.add("init-missing-dir-file", eval_initfile(mf), sample_count=1)
     rep.add("init-missing-dir", eval_init(mi), sample_count=1)
     rep.extra["shape_distribution"] = {"file_shapes": len(FLAT_SHAPE_TEXTS), "generate_c": len(sgc), "build": len(sbl),
-                                       "init_missing_dir_file": len(mf), "init_missing_dir": len(mi)}
+                                       "init_missing_dir_file": len(mf), "init_missing_dir": len(mi), "build_detect": len(bdc)}
     rep.extra["standalone_distribution"] = {"file_roundtrip": len(fcases), "file_read": len(lcases),
                                             "generate_c_exhaustive": len(gce), "generate_c_random": len(gcr),
                                             "build_loader": len(bcs)}
